@@ -10,8 +10,8 @@ CLAIMED = {
          "DESIGN.md C02", "message text, position strings and output channels cut to empty bodies; exit() modelled; AssembleFile decision skeleton not yet covered"),
  "C04": ("asmcode.c writer: one inductive step each of WriteBytes/NewRecord/OpenFile/CloseFile/RetractWords from an arbitrary state satisfying the representation invariant, byte-exact through a witness cell at an arbitrary file offset",
          "DESIGN.md C04", "stdio replaced by the witness-cell file model (stubs/vfile.h, no I/O errors); relocation records outside; lines 1..8 bytes against the 512-byte buffer and 1..24 against a buffer shrunk to 16 (source substitution) quick, 1..48 against 32 thorough; little-endian host"),
- "C03": ("crash-freedom of the shared record reader of the utilities (ReadRecordHeader/SkipRecord/ReadRelocInfo on every file of <= 10 arbitrary bytes: no memory fault, documented exit status, every record consumes input) and of the assembler kernels whose inputs used to crash it: integer / and # (incl. -2^63 / -1), shifts, SUBSTR/CHARFROMSTR with arbitrary positions, every sequence of 4 conditional statements incl. stray ones, ALIGN incl. 0",
-         "DESIGN.md C03", "kernels only: the whole utilities on arbitrary bytes and the assembler front end on arbitrary source text do not finish under symex (harnesses kept as 'experimental'); defects known by reading are listed in DESIGN.md section 7"),
+ "C03": ("crash-freedom of the shared record reader of the utilities (ReadRecordHeader/SkipRecord/ReadRelocInfo on every file of <= 10 arbitrary bytes: no memory fault, documented exit status, every record consumes input) and of the assembler kernels whose inputs used to crash it: integer / and # (incl. -2^63 / -1), shifts, SUBSTR/CHARFROMSTR with arbitrary positions, every sequence of 4 conditional statements incl. stray ones, ALIGN incl. 0; the record loops of p2bin, pbind and p2hex (Intel32, Motorola) on a code file of one record with unconstrained header fields truncated at any length: no fault, no division by zero, bounded loops, exit status 2/3 only; PAGE geometry + symbol-table listing terminate",
+         "DESIGN.md C03", "the utilities on files of more than one malformed record, plist as a whole, alink, dasl and the assembler front end on arbitrary source text do not finish under symex (harnesses kept as 'experimental') and are outside the claim"),
  "C05": ("P2BIN image: the real MeasureFile/OpenTarget/ProcessFile/CloseTarget on a code file of 2 records (long/short/entry forms, <= 4 bytes each, any start) with symbolic option state (-r explicit/auto, -l, -m per slice, -S -4..4, -e, -f, -segment, (offset)): every image byte through a witness cell, file length, auto range, entry header, overlap warning; RemoveOffset kernel",
          "DESIGN.md C05", "one granularity and one -m mode per obligation (2 slices quick, 27 thorough); copy buffer shrunk to 16 bytes, window <= 64 bytes; AddChunk cut to its contract; window start aligned to the lane group; -s checksum, several input files and option text parsing are outside"),
  "C06": ("P2HEX ProcessFile on one data record (1..5 bytes, any start) with symbolic window, -R relocation, -a, line length 2/4, -M, +5, separate terminators: the text written is fed through a printf monitor into an online decoder per format (Intel 8/16/32, Motorola S, MOS): record syntax, count fields, checksums, and every decoded byte equals the source byte at the decoded address, each exactly once and in order",
